@@ -144,10 +144,16 @@ impl TransactionManager {
     /// Begins a new transaction with the specified isolation level.
     pub fn begin_with_isolation(&self, isolation_level: IsolationLevel) -> TxId {
         let tx_id = TxId::new(self.next_tx_id.fetch_add(1, Ordering::Relaxed));
+
+        // The start epoch is read under the lock that registers the transaction:
+        // commit and gc run under the same lock, so a transaction can never hold a
+        // start epoch while gc, not seeing it yet, discards the commits it must
+        // still be checked against.
+        let mut txns = self.transactions.write();
         let epoch = EpochId::new(self.current_epoch.load(Ordering::Acquire));
 
         let info = TxInfo::new(epoch, isolation_level);
-        self.transactions.write().insert(tx_id, info);
+        txns.insert(tx_id, info);
         tx_id
     }
 
